@@ -406,3 +406,47 @@ theorem run_render (T : List Tok) (f : Fin) (words : List (List Char)) (r : List
   simp
 
 end Shk.Tpl
+
+namespace Shk.Tpl
+open Shk.Re
+
+/-- a greedy `[class]+` over a maximal run `w` of class characters, followed by a continuation that fails after
+every shorter run -/
+theorem ms_plus_run (s : List Char) (rs : List (Nat × Nat)) (K : Re) (c : Caps) (p : Nat)
+    (w tail : List Char) (hd : s.drop p = w ++ tail) (hp : p ≤ s.length) (hne : w ≠ [])
+    (hall : ∀ x ∈ w, inRanges rs x.toNat = true)
+    (htail : ∀ ch t', tail = ch :: t' → inRanges rs ch.toNat = false)
+    (hrej : ∀ k, 1 ≤ k → k < w.length → ms s K ⟨p + k, c⟩ = []) :
+    ms s (.cat (.plus true (.cls rs)) K) ⟨p, c⟩ = ms s K ⟨p + w.length, c⟩ := by
+  cases w with
+  | nil => exact absurd rfl hne
+  | cons x w =>
+    have hx : inRanges rs x.toNat = true := hall x (by simp)
+    have hw : ∀ y ∈ w, inRanges rs y.toNat = true := fun y hy => hall y (by simp [hy])
+    have h1 : s[p]? = some x := getElem?_of_drop (by simpa using hd)
+    have hd' : s.drop (p + 1) = w ++ tail := drop_succ_of_drop (by simpa using hd)
+    have hstep : stepChar s (inRanges rs) ⟨p, c⟩ = [⟨p + 1, c⟩] := by
+      unfold stepChar; simp [h1, hx]
+    have hlen := length_of_drop hd hp
+    have hG : ∀ k, k < w.length → ms s K ⟨p + 1 + k, c⟩ = [] := by
+      intro k hk
+      have := hrej (k + 1) (by omega) (by simp; omega)
+      rw [show p + (k + 1) = p + 1 + k by omega] at this; exact this
+    have := starN_run s (inRanges rs) (ms s K) c w tail (p + 1) (s.length - (p + 1)) hd' hw
+      htail (by simp at hlen; omega) hG
+    simp only [ms, hstep, List.flatMap_cons, List.flatMap_nil, List.append_nil]
+    rw [show (p + (x :: w).length) = p + 1 + w.length by simp; omega]
+    simpa using this
+
+/-- `[class]+` fails where the first character is not in the class -/
+theorem ms_plus_none (s : List Char) (rs : List (Nat × Nat)) (K : Re) (c : Caps) (p : Nat)
+    (h : ∀ ch, s[p]? = some ch → inRanges rs ch.toNat = false) :
+    ms s (.cat (.plus true (.cls rs)) K) ⟨p, c⟩ = [] := by
+  have hstep : stepChar s (inRanges rs) ⟨p, c⟩ = [] := by
+    unfold stepChar
+    cases hc : s[p]? with
+    | none => rfl
+    | some ch => simp [h ch hc]
+  simp [ms, hstep]
+
+end Shk.Tpl
